@@ -45,6 +45,12 @@ Part ``multi``: 2-3 StaticFileHandlers with sibling / nested roots (root, root_s
 Application (mount 0 via the static_path setting), a history of 2-6 operations sharing the version-hash cache (legitimate
 fetch through an owning handler or make_static_url on any path = warm-up, then a traversal / absolute form through ANOTHER
 handler aimed at the same file, plus soup requests, with ?v=), containment judged per handler, cache reset once per history.
+
+  M7 root-containment prefix test made case-insensitive (.lower() on both sides)
+       -> caught at seeds 1, 2, 3 (C26.leak: GET /static/../Root/cs.txt -> 200) after letter-case siblings of the root (Root/, ROOT/, rOOt)
+          were added to the fixture tree, to the random targets, to the multi-handler roots and as the exhaustive ``casegrid`` part
+          (8 targets x 3 mounts x root spelling x default_filename x GET/HEAD x "..", "%2e%2e", absolute form = 576 cases);
+          MISSED before: no sibling differed from the root only in case.  (Skipped with a label on a case-insensitive filesystem.)
 """
 import contextlib
 import os
@@ -94,7 +100,9 @@ OUT_TARGETS = [
     ("rootx",), ("roo", "r.txt"), ("abs", "path", "to", "secret"), ("root", "a.txt"), ("root", "sub", ""),
     ("nonexist.txt",), ("root_secret", "nonexist"), ("root_secret%2fs.txt",), ("root_secret%00",),
     ("rootx", ""), ("roo",), ("root_secret", "..", "outside.txt"), ("root", "..", "outside.txt"),
+    ("Root", "cs.txt"), ("ROOT", "index.html"), ("ROOT", ""), ("ROOT", "up.txt"), ("rOOt",), ("Root",),
 ]
+CASE_SIBLINGS = ("Root", "ROOT", "rOOt")
 SOUP = sorted(set(UPS + IN_DIRS + [s for t in OUT_TARGETS for s in t] + [
     "", "", ".", "%2e", "%2f", "%5c", "%00", "a.txt%00", "b.txt", "c.txt", "d.txt", "index.html", "caf%C3%A9.txt",
     "@BASE@", "%2f@BASE@", "@BASEENC@", "%ff", "%c3", "A" * 300, "root", "%2F", "a.txt/", "..%2f..%2f", "%2e%2e%2f%2e%2e",
@@ -287,6 +295,11 @@ def run_case(ctx, case):
                                    for s in ("root_secret", "rootx", "roo"))
     if sibling:
         labels.add("sibling_prefix")
+    if (not inside) and any(norm == fx.base + "/" + c or norm.startswith(fx.base + "/" + c + "/") for c in CASE_SIBLINGS):
+        labels.add("case_variant_sibling")
+        sibling = True
+        if not fx.case_sensitive:  # case-insensitive filesystem: "Root" IS the root; nothing to assert
+            return ctx.note(case, labels | {"case_insensitive_fs_skipped"}, False)
     nontrivial = crossed or sibling
 
     # expected in-root file for a 200
@@ -349,9 +362,10 @@ def run_case(ctx, case):
 # through one handler (warming the cache for that file), ``make_static_url`` calls (which hash any path, also
 # outside the root), then traversals through ANOTHER handler aimed at the already-hashed file.  The containment
 # oracle is evaluated per handler: a file inside handler B's root is still outside handler A's.
-ROOTKEYS = {"root": "root", "secret": "root_secret", "sub": "root/sub", "to": "abs/path/to"}
+ROOTKEYS = {"root": "root", "secret": "root_secret", "sub": "root/sub", "to": "abs/path/to", "Root": "Root", "ROOT": "ROOT"}
 MULTI_FILES = ["root/a.txt", "root/sub/b.txt", "root/sub/index.html", "root/sub/deep/c.txt", "root/noindex/d.txt",
-               "root_secret/s.txt", "root_secret/index.html", "rootx", "roo/r.txt", "outside.txt", "abs/path/to/secret"]
+               "root_secret/s.txt", "root_secret/index.html", "rootx", "roo/r.txt", "outside.txt", "abs/path/to/secret",
+               "Root/cs.txt", "ROOT/index.html", "ROOT/up.txt", "rOOt"]
 MULTI_UPS = ["..", "..", "..", "%2e%2e", "%2E%2e", ".%2e"]
 
 
@@ -485,16 +499,37 @@ def run_multi(ctx, case):
     ctx.note(case, labels, nontrivial)
 
 
-PARTS = {"main": run_case, "multi": run_multi}
+# --------------------------------------------------------------------------- deterministic boundary family: letter case
+# Every case-variant sibling of the root x every mount / root spelling / default_filename x GET/HEAD x up-step spelling
+# (the containment test must be an exact, case-sensitive comparison on this case-sensitive filesystem).
+CASE_TARGETS = [("Root", "cs.txt"), ("ROOT", "index.html"), ("ROOT", ""), ("ROOT",), ("ROOT", "up.txt"), ("rOOt",), ("Root", ""), ("Root",)]
+
+
+def casegrid_cases():
+    for mount in (0, 1, 2):
+        for slash in (False, True):
+            for default in (False, True):
+                for method in ("GET", "HEAD"):
+                    for up in ("..", "%2e%2e"):
+                        for t in CASE_TARGETS:
+                            yield {"mount": mount, "slash": slash, "default": default, "method": method,
+                                   "segs": [up] + list(t), "query": ""}
+                    for t in CASE_TARGETS:  # absolute form
+                        yield {"mount": mount, "slash": slash, "default": default, "method": method,
+                               "segs": ["", "@BASE@"] + list(t), "query": ""}
+
+
+PARTS = {"main": run_case, "multi": run_multi, "casegrid": run_case}
 REQUIRED = ["dotdot_escape", "sibling_prefix", "absolute", "encoded_slash", "nul", "dir_default", "served_200",
             "flip_hidden", "flip_created", "warm_then_traverse_outside", "hash_op", "multi_nested_roots",
-            "outside_but_in_other_handlers_root", "multi_served_200"]
+            "outside_but_in_other_handlers_root", "multi_served_200", "case_variant_sibling"]
 
 
 def main(ctx):
     ctx.run_replays(PARTS)
     ctx.explore(case_s, run_case, ctx.n(4000, 160000), name="main")
     ctx.explore(multi_case_s(), run_multi, ctx.n(1500, 60000), name="multi")
+    ctx.enumerate(casegrid_cases(), run_case, name="casegrid")
     for lab in REQUIRED:
         if not ctx.violations and not ctx.labels.get(lab):
             ctx.warnings.append("required label never hit: %s" % lab)
